@@ -11,7 +11,9 @@
 pub struct Hyphenator {
     // The data u8s have the following meaning.
     // The bottom four bits (u8 % 16) contain the op code. For 0..=9, this says
-    // emit this score. 10 and above means: terminate.
+    // emit this score. 10 and 11 mean: terminate. 12 and 13 are the scores of a
+    // hyphenation exception (no hyphen / hyphen): they are larger than every pattern
+    // digit, so an exception always wins over the patterns.
     // The top four bits (u8 / 16) is the number of zero scores to emit before
     // performing the operation above.
     data: Vec<u8>,
@@ -39,6 +41,13 @@ impl LowerCaser for AsciiLowerCaser {
         }
     }
 }
+
+/// Score stored for a position of a hyphenation exception at which no hyphen is allowed.
+/// Even, and larger than every pattern digit.
+const EXCEPTION_NO_HYPHEN: u8 = 12;
+/// Score stored for a position of a hyphenation exception at which a hyphen is allowed.
+/// Odd, and larger than every pattern digit.
+const EXCEPTION_HYPHEN: u8 = 13;
 
 impl Hyphenator {
     /// Construct a hyphenator loaded with plain TeX's English (US) patterns and exceptions.
@@ -150,20 +159,14 @@ impl Hyphenator {
         let mut vertex = self.patterns.root();
         vertex = self.patterns.next(vertex, trie::Edge::StartOfWord).0;
         let data_start = self.data.len();
-        let mut word = String::new();
-        let mut indices = vec![0];
-        self.data.push(6);
+        self.data.push(EXCEPTION_NO_HYPHEN);
         for c in hyphenated_word.chars() {
             if c == '-' {
-                indices.pop();
-                indices.push(7);
                 self.data.pop();
-                self.data.push(7);
+                self.data.push(EXCEPTION_HYPHEN);
             } else {
                 vertex = self.patterns.next(vertex, trie::Edge::Char(c)).0;
-                word.push(c);
-                indices.push(6);
-                self.data.push(6);
+                self.data.push(EXCEPTION_NO_HYPHEN);
             }
         }
         self.data.push(10);
@@ -204,14 +207,14 @@ impl Hyphenator {
                 k += (num_zeros) as usize;
                 let op = op % 16;
                 match op {
-                    score @ ..10 => {
+                    10 | 11 => {
+                        break;
+                    }
+                    score => {
                         if scores[p.offset + k] < score {
                             scores[p.offset + k] = score;
                         }
                         k += 1;
-                    }
-                    _ => {
-                        break;
                     }
                 }
             }
@@ -241,11 +244,11 @@ impl Hyphenator {
                 scores.resize(scores.len() + num_zeros as usize, 0_u8);
                 let op = op % 16;
                 match op {
-                    score @ ..10 => {
-                        scores.push(score);
-                    }
-                    _ => {
+                    10 | 11 => {
                         break op == 11;
+                    }
+                    score => {
+                        scores.push(score);
                     }
                 }
             };
